@@ -13,11 +13,21 @@
  *     P <sess> <mid> <tok>                peer's piggybacked 2.05 ACK arrives
  *     R <sess> <mid>                      peer's RST arrives
  *     N <sess> <mid> <code> <tok>         peer's NON with that mid arrives (not a reply to the CON)
+ *     D <sess> <reason>                   coap_session_disconnected(session, reason); the session is dead
+ *                                         afterwards (its socket is closed): later events on it are skipped
+ *     X <sess> <mid>                      coap_delete_node() on the first queued node of that session with that
+ *                                         mid, while it is linked into the send queue (what the library does to a
+ *                                         delayed multicast response it has just sent)
+ *     I <timeout_ms>                      coap_io_process(ctx, timeout_ms) (0 = COAP_IO_WAIT, 4294967295 =
+ *                                         COAP_IO_NO_WAIT); epoll_wait is interposed: it moves the clock by
+ *                                         the timeout it is given and reports no event
  *     Q                                   dump the send queue (absolute deadlines)
+ *   first, per session, what the getters report after the setters ran: 0.cfg:<k>:<at_ip>:<at_fp>:<arf_ip>:<arf_fp>:<max>
  *   output items, each prefixed with "<index of the event>." (times relative to the start of the case):
  *     s:<ret>  tx:<t>:<sess>:<bytes>  nk:<t>:<sess>:<reason>:<mid>:<has_pdu>
  *     w:<t>:<ms>:<deadline of the queue head or -1>
  *     q:<t>:<deadline>/<sess>/<mid>/<cnt>,...
+ *     ep:<t>:<timeout given to epoll_wait>   io:<t>:<return value of coap_io_process>
  *
  *   calc <at_ip> <at_fp> <arf_ip> <arf_fp> <r>   -> coap_calc_timeout (leaf sweep)
  *   qops <op>*                                    -> the send-queue primitives on hand-made nodes
@@ -33,6 +43,7 @@
 static coap_context_t *g_ctx;
 static coap_session_t *g_sess[MAXSESS];
 static int g_nsess;
+static int g_dead[MAXSESS];
 static coap_tick_t g_t0;
 static int g_logging;
 static int g_first;
@@ -79,6 +90,19 @@ static coap_response_t on_resp(coap_session_t *s, const coap_pdu_t *sent, const 
   return COAP_RESPONSE_OK;
 }
 
+/* epoll_wait as seen by coap_io_process(): sleeping = advancing the virtual clock; nothing is
+ * ever readable (datagrams are injected through coap_io_do_epoll by the driver itself) */
+static int g_ep_calls;
+int __wrap_epoll_wait(int epfd, struct epoll_event *events, int maxevents, int timeout) {
+  (void)epfd; (void)events; (void)maxevents;
+  if (g_logging && g_ep_calls++ == 0) {
+    item_sep();
+    printf("ep:%llu:%d", (unsigned long long)(vn_now - g_t0), timeout);
+  }
+  if (timeout > 0) vn_now += (coap_tick_t)timeout;
+  return 0;
+}
+
 static void dump_queue(void) {
   item_sep();
   printf("q:%llu:", (unsigned long long)(vn_now - g_t0));
@@ -119,10 +143,19 @@ static void c06(void) {
     coap_session_set_ack_random_factor(g_sess[k], arf);
     coap_session_set_max_retransmit(g_sess[k], (uint16_t)atoi(vtok[i + 4]));
     coap_session_set_nstart(g_sess[k], (uint16_t)atoi(vtok[i + 5]));
+    g_dead[k] = 0;
     i += 6;
   }
   g_logging = 1;
   g_first = 1;
+  g_ev = 0;
+  for (int k = 0; k < g_nsess; k++) {     /* what the getters say after the setters ran */
+    coap_fixed_point_t at = coap_session_get_ack_timeout(g_sess[k]);
+    coap_fixed_point_t arf = coap_session_get_ack_random_factor(g_sess[k]);
+    item_sep();
+    printf("cfg:%d:%u:%u:%u:%u:%u", k, at.integer_part, at.fractional_part, arf.integer_part,
+           arf.fractional_part, (unsigned)coap_session_get_max_retransmit(g_sess[k]));
+  }
   long long last_tick = -1, last_wait = 0;
   g_ev = -1;
   while (i < vntok) {
@@ -134,6 +167,26 @@ static void c06(void) {
         if (target > (long long)vn_now) vn_now = (coap_tick_t)target;
       }
       i += 2;
+    } else if (c == 'D' && i + 2 < vntok) {
+      int s = atoi(vtok[i + 1]) % g_nsess;
+      if (!g_dead[s]) {
+        coap_session_disconnected(g_sess[s], (coap_nack_reason_t)atoi(vtok[i + 2]));
+        g_dead[s] = 1;
+      }
+      i += 3;
+    } else if ((c == 'S' || c == 'K' || c == 'R' || c == 'P' || c == 'N' || c == 'X') && i + 1 < vntok &&
+               g_dead[atoi(vtok[i + 1]) % g_nsess]) {
+      i += (c == 'S') ? 7 : (c == 'P') ? 4 : (c == 'N') ? 5 : 3;
+    } else if (c == 'X' && i + 2 < vntok) {
+      int s = atoi(vtok[i + 1]) % g_nsess;
+      int mid = atoi(vtok[i + 2]);
+      coap_queue_t *q;
+      coap_lock_lock(g_ctx, return);
+      for (q = g_ctx->sendqueue; q; q = q->next)
+        if (q->session == g_sess[s] && q->id == mid) break;
+      coap_lock_unlock(g_ctx);
+      if (q) coap_delete_node(q);
+      i += 3;
     } else if (c == 'A' && i + 1 < vntok) {
       vn_advance((coap_tick_t)strtoull(vtok[i + 1], NULL, 10));
       i += 2;
@@ -199,6 +252,12 @@ static void c06(void) {
       vn_inject_session(g_ctx, g_sess[s], b, 4 + tl);
       free(tok);
       i += 5;
+    } else if (c == 'I' && i + 1 < vntok) {
+      g_ep_calls = 0;
+      int r = coap_io_process(g_ctx, (uint32_t)strtoul(vtok[i + 1], NULL, 10));
+      item_sep();
+      printf("io:%llu:%d", (unsigned long long)(vn_now - g_t0), r);
+      i += 2;
     } else if (c == 'Q') {
       dump_queue();
       i += 1;
